@@ -58,7 +58,12 @@
 (*     the new list (only its public / non-IP part with                    *)
 (*     DisableNonPublicAddrPublishing).  EvtHostReachableAddrsChanged is   *)
 (*     emitted exactly when a confirmed set changed; the tracker is told   *)
-(*     the new direct addresses exactly when they changed.                 *)
+(*     the new direct addresses exactly when they changed (it probes only  *)
+(*     public direct addresses the host has at that time).  The peerstore  *)
+(*     keeps no record for an empty list (the event then carries none).    *)
+(*     The record is meant to stay below maxPeerRecordSize = identify's    *)
+(*     8 KiB read limit; it does NOT with many addresses (finding          *)
+(*     am-signed-record-over-identify-limit, scenario test).               *)
 (*  A7 fresh: an update that runs without its inputs changing meanwhile    *)
 (*     leaves DirectAddrs() / the advertised list equal to the function of *)
 (*     the CURRENT inputs; a notification (Listen, Start) returns only     *)
@@ -70,6 +75,10 @@
 (*     event emitted, the cached lists stay, notifications return at once. *)
 (*  A9 eventually (liveness): while the manager runs, every change of an   *)
 (*     input is reflected by an update (the ticker guarantees a trigger).  *)
+(*  A10 (checked by the harness only) a list a public call has handed out  *)
+(*     is never written to afterwards; every /webtransport address handed  *)
+(*     out (listen, observed, from the factory) carries the certhash       *)
+(*     addCertHashes adds (the names of this module are certhash-agnostic).*)
 (*                                                                         *)
 (* As coded, modelled as such: Addrs() re-evaluates reachability and the   *)
 (* factory at call time on the lists CACHED by the last update, so between *)
